@@ -351,10 +351,10 @@ class IpPairing(ZeroconfPairing):
                 aid, iid = characteristic["aid"], characteristic["iid"]
                 key = (aid, iid)
                 status = characteristic["status"]
-                status_code = to_status_code(status).description
+                status_code = to_status_code(status)
                 if status_code != HapStatusCode.SUCCESS:
                     listener_update.pop(key, None)
-                response_status[key] = {"status": status, "description": status_code}
+                response_status[key] = {"status": status, "description": status_code.description}
 
         if listener_update:
             self._callback_listeners(listener_update)
